@@ -2,15 +2,17 @@
 # usage: matrix.sh <outfile>  -- runs every seeded change (patch.diff under /verif/seeded/*/ and /tmp/mut/*/out/*/)
 # against all 20 quick checks on the side copy (/tmp/hbrepo + /tmp/hb); development calibration only.
 out="$1"; : > "$out"
-export VERIF_REPO=/tmp/hbrepo VERIF_DIR=/tmp/hb
-cp /verif/known_findings.json /tmp/hb/
-for patch in $(ls /verif/seeded/${ONLY:-*}/patch.diff | sort -u); do
+# env: ONLY (glob on ids), ONLY_RE (regex on ids), MX_REPO / MX_HB (side copy to use; default /tmp/hbrepo + /tmp/hb)
+R=${MX_REPO:-/tmp/hbrepo}; H=${MX_HB:-/tmp/hb}
+export VERIF_REPO=$R VERIF_DIR=$H
+cp /verif/known_findings.json $H/
+for patch in $(ls /verif/seeded/${ONLY:-*}/patch.diff | grep -E "seeded/(${ONLY_RE:-.*})/patch.diff" | sort -u); do
   name=$(echo $patch | sed 's#/tmp/mut/##; s#/verif/seeded/##; s#/out/#-#; s#/patch.diff##')
-  cd /tmp/hbrepo && git checkout -q -- . && git apply "$patch" 2>/dev/null || { echo "$name: PATCH DOES NOT APPLY" >> "$out"; continue; }
-  (cd /tmp/hb && cargo build --release --offline 2>&1 | grep -E "^error" -A 6 | head -20 >> "$out")
+  cd $R && git checkout -q -- . && git apply "$patch" 2>/dev/null || { echo "$name: PATCH DOES NOT APPLY" >> "$out"; continue; }
+  (cd $H && cargo build --release --offline 2>&1 | grep -E "^error" -A 6 | head -20 >> "$out")
   line="$name:"
   for p in C01 C02 C03 C04 C05 C06 C07 C08 C09 C10 C11 C12 C13 C14 C15 C16 C17 C18 C19 C20; do
-    r=$(cd /tmp/hb && ./target/release/tarpc-verif $p quick 2>&1)
+    r=$(cd $H && ./target/release/tarpc-verif $p quick 2>&1)
     if echo "$r" | grep -q "^VIOLATION"; then
       sig=$(echo "$r" | grep -E "^  C[0-9]+/" | head -2 | sed 's/^  //; s/:.*//' | tr '\n' ',')
       line="$line $p[$sig]"
@@ -18,5 +20,5 @@ for patch in $(ls /verif/seeded/${ONLY:-*}/patch.diff | sort -u); do
   done
   echo "$line" >> "$out"
 done
-cd /tmp/hbrepo && git checkout -q -- .
+cd $R && git checkout -q -- .
 echo DONE >> "$out"
